@@ -126,6 +126,19 @@ def optVal (j : Json) (k : String) : Except String (Option Val) :=
   | .ok v => do pure (some (← parseVal v))
   | .error _ => pure none
 
+/-- `"params": {"kw": [[k, v], ...]}`: the keyword arguments of `dict(iterable, **kw)` in call order, keys and values
+    in the value encoding of `parseVal`; absent / `null` = the call without keywords -/
+def parseKw (p : Json) : Except String (Option (List (Val × Val))) :=
+  match p.getObjVal? "kw" with
+  | .ok .null => pure none
+  | .ok v => do
+    let l ← (← v.getArr?).toList.mapM fun e => do
+      let pr ← e.getArr?
+      if pr.size != 2 then throw "kw entry must be [key, value]"
+      pure ((← parseVal (← arrGet pr 0)), (← parseVal (← arrGet pr 1)))
+    pure (some l)
+  | .error _ => pure none
+
 inductive Prog where
   | gen (impl std : M Unit)
   | val (impl std : M Val)
@@ -182,7 +195,10 @@ def program (tool : String) (p : Json) (nsrc : Nat) (fuel : Nat) : Except String
   | "list" => pure (.val (Impl.list 0 fuel) (do pure (.lst (← Std.collectAll 0 [] fuel))))
   | "tuple" => pure (.val (Impl.tuple 0 fuel) (do pure (.tup (← Std.collectAll 0 [] fuel))))
   | "set" => pure (.val (Impl.set 0 fuel) (Std.set 0 fuel))
-  | "dict" => pure (.val (Impl.dict 0 fuel) (Std.dict 0 fuel))
+  | "dict" => do
+    match ← parseKw p with
+    | none => pure (.val (Impl.dict 0 fuel) (Std.dict 0 fuel))
+    | some kw => pure (.val (Impl.dictKw kw 0 fuel) (Std.dictKw kw 0 fuel))
   | "sorted" => pure (.val (Impl.sorted (optFn p "key") (boolOr p "reverse" false) 0 fuel)
                            (Std.sorted (optFn p "key") (boolOr p "reverse" false) 0 fuel))
   | "nlargest" => pure (.val (Impl.nBest true (natOr p "n" 0) (optFn p "key") 0 fuel)
